@@ -39,6 +39,7 @@ Section Hash.
   Proof.
     intros cf1 cf2 o a b [H1 [H2 H3]]. unfold step. destruct o as [n id|n].
     - unfold insert_record. cbn [bt_records bt_total bt_nroot bt_lazy]. rewrite H1, H2, H3.
+      destruct (existsb _ _); [cbn [fst snd]; repeat split; auto|].
       destruct (max_records <=? _); cbn [fst snd]; repeat split; cbn [bt_records bt_total bt_nroot]; auto.
     - unfold dense_delete. cbn [bt_records bt_total bt_nroot bt_lazy]. rewrite H1, H2, H3.
       destruct (String.eqb n ""); [cbn [fst snd]; repeat split; auto|].
@@ -83,9 +84,9 @@ Definition toy_hash (s : string) : N := N.of_nat (String.length s).
 Definition lazy_on : config := mkConfig false (Some (mkLazy true 0 0)) (fun u => (0 <? u)%Z) true.
 Definition plain_cfg : config := mkConfig false None (fun _ => false) false.
 Example ex_history :
-  let ops := [OIns "aa" 1; OIns "b" 2; OIns "cccc" 3; ODel "b"; ODel "zzzzz"; OIns "ddd" 4; ODel "aa"]%string in
+  let ops := [OIns "aa" 1; OIns "b" 2; OIns "cccc" 3; ODel "b"; ODel "zzzzz"; OIns "ddd" 4; OIns "xx" 5; ODel "aa"]%string in
   visible (run_hist toy_hash 371 (fun i => if Nat.even i then lazy_on else plain_cfg) 0 ops btree0)
-  = ([ROk; ROk; ROk; ROk; RErr; ROk; ROk], [(3, 4); (4, 3)], 2, 2).
+  = ([ROk; ROk; ROk; ROk; RErr; ROk; RErr; ROk], [(3, 4); (4, 3)], 2, 2).
 Proof. vm_compute. reflexivity. Qed.
 
 (* the lazy entry point does do something else besides (its bookkeeping differs), so the theorem is
